@@ -163,11 +163,14 @@ def search(ctx, budget, hints):
     rng = vlib.Rng(ctx.seed + 1414)
     out = []
     n = 0
+    tstats = {}
     for _ in range(120 * budget):
-        n += oracle_noop(rng, problems.rand_solver_problem(rng, objectives=True), out)
+        d_ = problems.rand_solver_problem(rng, objectives=True)
+        n += vlib.limited(lambda: oracle_noop(rng, d_, out), 10, 0, tstats)
     for _ in range(600 * budget):
-        n += oracle_constructor(rng, out)
+        n += vlib.limited(lambda: oracle_constructor(rng, out), 10, 0, tstats)
     cex, hist = solverprops.shrink_best(out)
+    hist.update({"skipped:" + k: v for k, v in tstats.items()})
     return dict(counterexamples=cex, evaluations=n, hist=hist,
                 samples=[dict(oracle="sequence and numpy RNG state before/after resolve/optimize on satisfied problems")])
 
